@@ -32,3 +32,11 @@ def namedtuple_defaults_swallow_indexerror(v):
     """F24: NamedTuple with defaults: an IndexError raised inside a field's own
     conversion is taken for 'short input' and the remaining fields take defaults."""
     return v.get("facts", {}).get("explained_by") == "F24"
+
+
+@predicate
+def keyword_flag_default_shadows_call_dialect(v):
+    """F25: class with TO_DICT_ADD_OMIT_NONE_FLAG / TO_DICT_ADD_BY_ALIAS_FLAG called with dialect=D and
+    without the keyword: the outer method forwards its own compiled default for the flag, which
+    overrides D.omit_none / D.serialize_by_alias."""
+    return v.get("facts", {}).get("explained_by") == "F25"
